@@ -30,6 +30,8 @@ struct EngCfg {
     int block_bias = 2;       // hex kernel: out of 10 build steps add a block of hexes
     bool allow_status_gc = false; // C04: StatusAttrib::garbage_collection with handle tracking / manifoldness
     bool chk_fan = false;     // C09 oracles after every step
+    bool persistent_tags = false; // C13: identity tags survive mesh copies
+    std::string prop_prefix = "p";
 };
 
 struct CellTemplate { const char *name; int nv; std::vector<std::vector<int>> faces; };
@@ -50,7 +52,7 @@ struct Engine {
     using M = XMesh<K>;
     static constexpr int KIND = KernelName<K>::kind;
     Ctx &ctx; Rng &rng; EngCfg cfg;
-    M mesh; Model model; Scan s;
+    std::unique_ptr<M> mesh_owner; M &mesh; Model model; Scan s;
     ovm::VertexPropertyT<int> vtag; ovm::EdgePropertyT<int> etag; ovm::FacePropertyT<int> ftag; ovm::CellPropertyT<int> ctag;
     std::vector<std::unique_ptr<IProp>> props;   // user properties incl. the two half-entity tag props
     IProp *hetag = nullptr, *hftag = nullptr;
@@ -60,13 +62,22 @@ struct Engine {
     void rec(Call::Op op, int a = 0, int b = 0, int c = 0, std::vector<int> l = {}) { if (recorder) recorder->push_back(Call{op, a, b, c, std::move(l)}); }
     bool after_clear_props = false;   // clear(true) happened: held properties were anonymised
 
-    Engine(Ctx &c, const EngCfg &g) : ctx(c), rng(c.rng), cfg(g),
-        vtag(mesh.template request_vertex_property<int>("vf:v", -1)), etag(mesh.template request_edge_property<int>("vf:e", -1)),
-        ftag(mesh.template request_face_property<int>("vf:f", -1)), ctag(mesh.template request_cell_property<int>("vf:c", -1)) {
+    void acquire_half_tags() {
         auto he = std::make_unique<PropT<int, ovm::Entity::HalfEdge>>(mesh.template request_halfedge_property<int>("vf:he", -1), "HE/int/tag");
         auto hf = std::make_unique<PropT<int, ovm::Entity::HalfFace>>(mesh.template request_halfface_property<int>("vf:hf", -1), "HF/int/tag");
-        hetag = he.get(); hftag = hf.get();
-        props.push_back(std::move(he)); props.push_back(std::move(hf));
+        he->name = "vf:he"; hf->name = "vf:hf";
+        if (hetag) { he->shadow = hetag->shadow; hf->shadow = hftag->shadow; props[0] = std::move(he); props[1] = std::move(hf); }
+        else { props.push_back(std::move(he)); props.push_back(std::move(hf)); }
+        hetag = props[0].get(); hftag = props[1].get();
+        if (cfg.persistent_tags) {
+            mesh.set_persistent(vtag); mesh.set_persistent(etag); mesh.set_persistent(ftag); mesh.set_persistent(ctag);
+            mesh.set_persistent(static_cast<PropT<int, ovm::Entity::HalfEdge> *>(hetag)->p); mesh.set_persistent(static_cast<PropT<int, ovm::Entity::HalfFace> *>(hftag)->p);
+        }
+    }
+    Engine(Ctx &c, const EngCfg &g) : ctx(c), rng(c.rng), cfg(g), mesh_owner(new M()), mesh(*mesh_owner),
+        vtag(mesh.template request_vertex_property<int>("vf:v", -1)), etag(mesh.template request_edge_property<int>("vf:e", -1)),
+        ftag(mesh.template request_face_property<int>("vf:f", -1)), ctag(mesh.template request_cell_property<int>("vf:c", -1)) {
+        acquire_half_tags();
         int mode = cfg.init_mode >= 0 ? cfg.init_mode : (int)rng.below(4);
         // default of the library is deferred+fast
         init_mode_used = mode;
@@ -75,6 +86,35 @@ struct Engine {
         mesh.enable_vertex_bottom_up_incidences(bu & 1); mesh.enable_edge_bottom_up_incidences(bu & 2); mesh.enable_face_bottom_up_incidences(bu & 4);
         std::ostringstream o; o << "init(kernel=" << KernelName<K>::name() << ",deferred=" << (mode & 1) << ",fast=" << ((mode >> 1) & 1) << ",bu=" << bu << ")";
         ctx.op(o.str());
+        rescan();
+    }
+    // copy-constructed twin of another engine's mesh (C13): the tag properties must be persistent in `src`
+    // so that the copy carries them; the model and the tag shadows are taken over.
+    struct CopyOf {};
+    Engine(Ctx &c, const EngCfg &g, const Engine &src, CopyOf) : ctx(c), rng(c.rng), cfg(g), mesh_owner(new M(src.mesh)), mesh(*mesh_owner), model(src.model),
+        vtag(mesh.template request_vertex_property<int>("vf:v", -1)), etag(mesh.template request_edge_property<int>("vf:e", -1)),
+        ftag(mesh.template request_face_property<int>("vf:f", -1)), ctag(mesh.template request_cell_property<int>("vf:c", -1)) {
+        acquire_half_tags();
+        hetag->shadow = src.hetag->shadow; hftag->shadow = src.hftag->shadow;
+        prop_serial = 1000;
+        ctx.op("copy-construct mesh");
+        rescan();
+    }
+    // mesh assignment from another engine's mesh; previously held property handles stay in `orphans`
+    std::vector<std::unique_ptr<IProp>> orphans;
+    template <class Src> void assign_from(const Src &src) {
+        for (size_t i = 2; i < props.size(); ++i) orphans.push_back(std::move(props[i]));
+        props.resize(2);
+        ctx.op("mesh = other mesh");
+        mesh = src.mesh;
+        model = src.model;
+        vtag = mesh.template request_vertex_property<int>("vf:v", -1); etag = mesh.template request_edge_property<int>("vf:e", -1);
+        ftag = mesh.template request_face_property<int>("vf:f", -1); ctag = mesh.template request_cell_property<int>("vf:c", -1);
+        // keep the old half-tag handles as orphans as well, then re-acquire
+        orphans.push_back(std::move(props[0])); orphans.push_back(std::move(props[1]));
+        props.clear(); hetag = hftag = nullptr;
+        acquire_half_tags();
+        hetag->shadow = src.hetag->shadow; hftag->shadow = src.hftag->shadow;
         rescan();
     }
 
@@ -772,12 +812,13 @@ struct Engine {
 
     // ------------------------------------------------------------ user properties (C03)
     template <class T, class ET> void create_prop_t(int flavour) {
-        std::string name = "p" + std::to_string(prop_serial++);
+        std::string name = cfg.prop_prefix + std::to_string(prop_serial++);
         T def = Val<T>::make(rng);
         std::string lab = std::string(pkind_name(PKind<ET>::k)) + "/" + Val<T>::name() + "/" + (flavour == 0 ? "shared" : flavour == 1 ? "private" : "persistent");
         if (flavour == 0) props.push_back(std::make_unique<PropT<T, ET>>(mesh.template request_property<T, ET>(name, def), lab));
         else if (flavour == 1) props.push_back(std::make_unique<PropT<T, ET>>(mesh.template create_private_property<T, ET>(name, def), lab));
         else props.push_back(std::make_unique<PropT<T, ET>>(*mesh.template create_persistent_property<T, ET>(name, def), lab));
+        props.back()->name = name; props.back()->flavour = flavour;
         ctx.op("create_property(" + lab + "," + name + ")");
         ctx.cls("prop:" + lab);
     }
